@@ -4,6 +4,8 @@ import (
 	"fmt"
 	"go/token"
 	"go/types"
+	"strconv"
+	"strings"
 
 	"golang.org/x/tools/go/ssa"
 )
@@ -345,9 +347,9 @@ func (x *Exec) binop(st *State, op token.Token, a, b Term, ta, tb types.Type, p 
 	}
 	switch op {
 	case token.ADD:
-		return App(s, "bvadd", a, b)
+		return bvAddSimp(s, a, b, false)
 	case token.SUB:
-		return App(s, "bvsub", a, b)
+		return bvAddSimp(s, a, b, true)
 	case token.MUL:
 		return App(s, "bvmul", a, b)
 	case token.QUO, token.REM:
@@ -698,4 +700,45 @@ func (x *Exec) runeDecl() {
 (assert (forall ((s Str) (i (_ BitVec 64))) (! (and (bvuge (rune.len s i) #x0000000000000001) (bvule (rune.len s i) #x0000000000000004)) :pattern ((rune.len s i)))))
 (assert (forall ((s Str) (i (_ BitVec 64))) (! (=> (bvult (gs.at s i) #x80) (and (= (rune.len s i) #x0000000000000001) (= (rune.at s i) ((_ zero_extend 24) (gs.at s i))))) :pattern ((rune.at s i)) :pattern ((rune.len s i)))))
 (assert (forall ((s Str) (i (_ BitVec 64))) (! (=> (bvuge (gs.at s i) #x80) (bvuge (rune.at s i) #x00000080)) :pattern ((rune.at s i)))))`)
+}
+
+// bvAddSimp builds a+b or a-b, folding constants: (x + c1) +/- c2 -> x + c;
+// keeps index arithmetic in one canonical shape, which congruence needs.
+func bvAddSimp(s Sort, a, b Term, sub bool) Term {
+	w := s.BVWidth()
+	cb, okb := bvConstVal(b, w)
+	if !okb || w != 64 {
+		if sub {
+			return App(s, "bvsub", a, b)
+		}
+		return App(s, "bvadd", a, b)
+	}
+	if sub {
+		cb = -cb
+	}
+	base, ca := a, uint64(0)
+	if strings.HasPrefix(a.S, "(bvadd ") {
+		args := splitArgs(a.S[len("(bvadd ") : len(a.S)-1])
+		if len(args) == 2 {
+			if c, ok := bvConstVal(Term{args[1], s}, w); ok {
+				base, ca = Term{args[0], s}, c
+			}
+		}
+	}
+	if c, ok := bvConstVal(a, w); ok {
+		return BVConst(c+cb, w)
+	}
+	tot := ca + cb
+	if tot == 0 {
+		return base
+	}
+	return App(s, "bvadd", base, BVConst(tot, w))
+}
+
+func bvConstVal(t Term, w int) (uint64, bool) {
+	if strings.HasPrefix(t.S, "#x") && len(t.S) == 2+w/4 {
+		n, err := strconv.ParseUint(t.S[2:], 16, 64)
+		return n, err == nil
+	}
+	return 0, false
 }
